@@ -120,3 +120,27 @@ def _fock_backend_state(h):
     h.ensure("exactly-the-other-modes-traced-out", sorted(data.traced) == [m for m in range(n) if m not in modes], bounded_shape=True)
     h.ensure("reduced-state-flagged-mixed", pure_flag is False, bounded_shape=True)
     h.ensure("mode-names-follow-the-request", list(names) == [f"q[{m}]" for m in modes], bounded_shape=True)
+
+
+@proof("C16", ST + ":BaseGaussianState.reduced_dm", name="BaseGaussianState.reduced_dm/pure-branch-index-order")
+def _gaussian_reduced_dm_pure(h):
+    """pure reduced state: the ket returned by thewalrus (one axis per kept mode) is turned into a density matrix with
+    two indices per mode, (ket, bra) of mode 1, then of mode 2, ... - the layout of the mixed branch and of the Fock
+    representation.  1..5 kept modes."""
+    import types
+    st = h.module(ST)
+    k = (1, 2, 3, 4, 5)[h.eng.choose(5, "kept")]
+    modes = list(range(k))
+    obj = h.new(st.BaseGaussianState, _modes=k + 1, _hbar=2, _pure=True, _basis="gaussian", EQ_TOLERANCE=1e-10)
+    npx = fake_np(st.np)
+    npx.linalg = types.SimpleNamespace(det=lambda c: 1.0)
+    npx.abs = abs
+    npx.multiply = types.SimpleNamespace(outer=lambda a, b: LT(a.labels + b.labels, a.bad or b.bad))
+    twq = types.SimpleNamespace(state_vector=lambda mu, cov, **kw: LT([(j, "k") for j in range(k)]),
+                                density_matrix=lambda *a, **kw: "MIXED")
+    with h.stubbed(st, "np", npx), h.stubbed(st, "twq", twq), h.stubbed(st.BaseGaussianState, "reduced_gaussian", lambda self, m: ("MU", "COV")):
+        out = h.call(obj.reduced_dm, list(modes), cutoff=3)
+    h.ensure("no-exception", out.returned, bounded_shape=True)
+    if out.returned:
+        r = out.value
+        h.ensure("two-indices-per-mode-(ket,bra)-in-mode-order", isinstance(r, LT) and r.bad is None and r.labels == interleaved(modes), bounded_shape=True)
